@@ -362,7 +362,8 @@ pub fn lex_of_nd(fi: usize, v: &ND, tape: &[u8]) -> LN {
 // ---------------------------------------------------------------------------------------
 // arbitrary lexical values (fold totality): every field arbitrary or near-valid
 
-fn wild_string(fi: usize) -> BoxedStrategy<String> {
+/// (pool of degenerate field texts, keyword fragments) for format `fi`
+pub fn wild_texts(fi: usize) -> (Vec<String>, Vec<String>) {
     let v = vocab(fi);
     let mut pool: Vec<String> = vec!["", "NaN", "nan", "inf", "-inf", "infinity", "1e400", "1e-400", "-0", "+7", "-1", "1.5", "2", "0.5", "1", "0", ":!:", "t=", "发生在--", ":!5", "!5:", ":|", "abc", " ", "0x10", "١", "1_0", "1e0", "+", "-", "18446744073709551616", "18446744073709551615", "99999999999999999999", "-9223372036854775808", "9223372036854775808", "-5", "٣"]
         .into_iter()
@@ -383,13 +384,75 @@ fn wild_string(fi: usize) -> BoxedStrategy<String> {
         pool.push(l.clone());
         pool.push(r.clone());
     }
+    // fragments: every proper prefix / suffix of every keyword and of the enum format's decoration
+    // brackets (a field that is only the opening half of its own bracket, a one-character
+    // remainder of a tense marker, …): the degenerate texts a fold has to refuse cleanly
+    let mut frags: Vec<String> = vec![];
+    let e = fmts::e(fi);
+    let mut words = v.all_keywords();
+    for w in [e.sentence.stamp_brackets.0, e.sentence.stamp_brackets.1, e.sentence.truth_brackets.0, e.sentence.truth_brackets.1, e.task.budget_brackets.0, e.task.budget_brackets.1, e.sentence.stamp_fixed, e.sentence.stamp_past, e.sentence.stamp_present, e.sentence.stamp_future] {
+        words.push(w.to_string());
+    }
+    for w in &words {
+        let cs: Vec<char> = w.chars().collect();
+        for i in 1..=cs.len() {
+            frags.push(cs[..i].iter().collect());
+            frags.push(cs[cs.len() - i..].iter().collect());
+        }
+    }
+    frags.sort();
+    frags.dedup();
+    (pool, frags)
+}
+
+fn wild_string(fi: usize) -> BoxedStrategy<String> {
+    let (pool, frags) = wild_texts(fi);
     prop_oneof![
-        62 => select(pool),
+        54 => select(pool),
+        8 => select(frags),
         8 => gen::edge_numeral(),
         15 => "\\PC{0,8}",
         15 => gen::name(fi, gen::NameProfile::Main),
     ]
     .boxed()
+}
+
+/// bounded-exhaustive: a valid one-atom judgement / task in which exactly ONE decoration field
+/// (stamp, a truth entry, a budget entry, the punctuation) is replaced by each degenerate text
+pub fn decoration_space() -> Vec<LN> {
+    let mut out = vec![];
+    for fi in 0..3 {
+        let v = vocab(fi);
+        let (pool, frags) = wild_texts(fi);
+        let mut texts: Vec<String> = pool.into_iter().chain(frags).collect();
+        for k in [1usize, 6, 7, 15, 16, 17, 24] {
+            let z = "0".repeat(k);
+            texts.extend([format!("1.{z}1"), format!("-0.{z}1"), format!("0.{}", "9".repeat(k)), format!("1.{z}")]);
+        }
+        texts.sort();
+        texts.dedup();
+        let punct = v.puncts.first().cloned().unwrap_or_default();
+        let base = |stamp: &str, truth: Vec<String>, punct: &str| LS { term: LT::atom("", "a"), punct: punct.to_string(), stamp: stamp.to_string(), truth };
+        let ok_truth = || vec!["1".to_string(), "0.9".to_string()];
+        for t in &texts {
+            let sentences = vec![
+                base(t, ok_truth(), &punct),
+                base(t, vec![], &punct),
+                base("", vec![t.clone()], &punct),
+                base("", vec![t.clone(), "0.9".into()], &punct),
+                base("", vec!["1".into(), t.clone()], &punct),
+                base("", ok_truth(), t),
+            ];
+            for s in sentences {
+                out.push(LN::Sentence(s.clone()));
+                out.push(LN::Task { budget: vec!["0.5".into()], s });
+            }
+            for budget in [vec![t.clone()], vec!["0.5".into(), t.clone()], vec!["0.5".into(), "0.5".into(), t.clone()]] {
+                out.push(LN::Task { budget, s: base("", ok_truth(), &punct) });
+            }
+        }
+    }
+    out
 }
 
 pub fn wild_term(fi: usize) -> BoxedStrategy<LT> {
